@@ -79,10 +79,12 @@ def to_signed(v, n):
 
 
 class IV:
-    __slots__ = ("bits", "c", "e", "_u", "_s", "pref", "lazy")
+    __slots__ = ("bits", "c", "e", "_u", "_s", "pref", "lazy", "tz", "ubits")
 
     def __init__(self, bits, c=None, e=None, u=None, s=None, pref="u", lazy=None):
         self.lazy = lazy
+        self.tz = 0          # known trailing zero bits
+        self.ubits = bits    # value (unsigned reading) is known to be < 2^ubits
         self.bits = bits
         self.c = None if c is None else c & mask(bits)
         self.e = e
@@ -546,6 +548,11 @@ class IntDom:
                 return a
             if a.c == 0:
                 return b
+            for x, y in ((a, b), (b, a)):
+                if x.tz >= y.ubits and x.c is None or (x.c is not None and y.ubits <= (((x.c & -x.c).bit_length() - 1) if x.c else n)):
+                    r = self.mk_u(n, self.U(x) + self.U(y))  # disjoint bit ranges: or == add
+                    r.ubits = n
+                    return r
             return self._or_like(a, b, op)
         if op == "xor":
             if b.c == 0:
@@ -578,11 +585,19 @@ class IntDom:
         if k == 0:
             return a
         if op == "shl":
-            if a.pref == "s":
-                return self.mk_s(n, self.wrap_s(self.S(a) * (1 << k), n))
-            return self.mk_u(n, self.wrap_u(self.U(a) * (1 << k), n))
+            if a.ubits + k <= n:
+                r = self.mk_u(n, self.U(a) * (1 << k))  # cannot wrap
+                r.ubits = a.ubits + k
+            elif a.pref == "s":
+                r = self.mk_s(n, self.wrap_s(self.S(a) * (1 << k), n))
+            else:
+                r = self.mk_u(n, self.wrap_u(self.U(a) * (1 << k), n))
+            r.tz = a.tz + k
+            return r
         if op == "lshr":
-            return self.mk_u(n, self.U(a) / (1 << k))
+            r = self.mk_u(n, self.U(a) / (1 << k))
+            r.ubits = max(0, min(a.ubits, n) - k)
+            return r
         return self.mk_s(n, self.S(a) / (1 << k))  # floor division by a positive constant
 
     def icmp(self, pred, a, b):
@@ -614,7 +629,9 @@ class IntDom:
     def zext(self, a, bits):
         if a.c is not None:
             return IV(bits, c=a.c)
-        return IV(bits, u=self.U(a), s=self.U(a), pref="u")
+        r = IV(bits, u=self.U(a), s=self.U(a), pref="u")
+        r.ubits = min(a.bits, a.ubits)
+        return r
 
     def sext(self, a, bits):
         if a.c is not None:
